@@ -99,7 +99,7 @@ Inductive line := LReady | LBest (n : nat) | LInfo.
 Inductive creator := ByRun (n : nat) (* run of search n, search.go:300 *) | ByPonderHit (c : nat) (* call number c, search.go:183 *).
 Inductive reason :=
 | RSelf                                         (* iterativeDeepening returned by itself (depth, mate, single move) *)
-| RNodes                                        (* stopConditions search.go:603 *)
+| RNodes                                        (* own node limit reached, stopConditions search.go:616 (no store into the token) *)
 | RTimer (k : nat) (tok : nat) (cr : creator)   (* timer k, holding token tok, search.go:732 *)
 | RStop (c : nat)                               (* StopSearch (also inside NewGame), call number c, search.go:171 *)
 | REnd.                                         (* clean-up store at the end of run, search.go:386 *)
@@ -148,20 +148,16 @@ Inductive spc :=
 | SSetTL                     (* 621 setTimeLimit(setupTimeControl) *)
 | SSetET                     (* 622 setExtraTime(0) *)
 | SLimTimer                  (* 299 read s.searchLimits *)
-| STimerPtr                  (* 717 read s.stopFlag *)
+| STimerPtr                  (* startTimer: read s.stopFlag *)
 | STimerGo (p : nat)         (* 718 go timer *)
 | SBook                      (* 305 read s.book *)
 | STTAge                     (* 318 read s.tt *)
 | SHist                      (* 331 read s.history *)
 | SRelInit                   (* 339 Release init *)
 | SLoop                      (* head of the search loop (iterativeDeepening / alpha-beta nodes) *)
-| SPollPtr                   (* 599 read s.stopFlag *)
-| SPollTok (p : nat)         (* 599 .Load() *)
-| SPollLim                   (* 602 read s.searchLimits(.Nodes) *)
-| SNodesPtr                  (* 603 read s.stopFlag *)
-| SNodesStore (p : nat)      (* 603 .Store(true) *)
-| SPoll2Ptr                  (* 605 read s.stopFlag *)
-| SPoll2Tok (p : nat)        (* 605 .Load() *)
+| SPollPtr                   (* stopConditions 610 read s.stopFlag *)
+| SPollTok (p : nat)         (* 610 .Load() *)
+| SPollLim                   (* 616 read s.searchLimits(.Nodes) *)
 | SNodeTT                    (* alphabeta.go:233 read s.tt *)
 | SNodeHist                  (* alphabeta.go:688 read s.history *)
 | SInfo0 | SInfo1 | SInfo2 | SInfo3 (k : nat) | SInfo4    (* uci.go:655-659 via SendIterationEndInfo etc. *)
@@ -522,7 +518,7 @@ Definition cstep (s : state) : option state :=
 Inductive choice :=
 | Go        (* the ordinary next statement *)
 | Finish    (* at SLoop: iterativeDeepening returns by itself *)
-| Nodes     (* at SPollLim: the node limit is found exceeded (search.go:602) *)
+| Nodes     (* at SPollLim: the node limit is found exceeded (stopConditions) *)
 | Info      (* at SLoop: an info line is sent *)
 | Extra.    (* at SLoop: addExtraTime (search.go:466-471), once *)
 
@@ -548,10 +544,10 @@ Definition sstep (s : state) (th : sthread) (c : choice) : option state :=
   | SInTTW, Go => goto_s (after_init_s th) th (s |> set_tt true)                 (* 589 *)
   | SSetTL, Go => goto_s SSetET th (s |> set_timeLimit (lTime (slim th)))        (* 621 *)
   | SSetET, Go => goto_s SLimTimer th (s |> set_extraTime 0)                     (* 622 *)
-  | SLimTimer, Go =>                                                             (* 299 *)
+  | SLimTimer, Go =>                                                             (* run: TimeControl && !Ponder && !Infinite *)
       match limitsVar s with
       | None => Some (s |> set_panicked true)
-      | Some l => goto_s (if lTimeControl l && negb (lPonder l) then STimerPtr else SBook) th s
+      | Some l => goto_s (if lTimeControl l && negb (lPonder l) && negb (lInfinite l) then STimerPtr else SBook) th s
       end
   | STimerPtr, Go => goto_s (STimerGo (stopPtr s)) th s                          (* 717 *)
   | STimerGo p, Go => goto_s SBook th (new_timer p (ByRun (sid th)) s)           (* 718 *)
@@ -569,23 +565,15 @@ Definition sstep (s : state) (th : sthread) (c : choice) : option state :=
       | Some r => Some (upd_s (th |> set_sreason (Some r) |> set_spc SWaitLim) s)
       | None => goto_s SPollLim th s
       end
-  | SPollLim, Go =>                                                              (* 602 *)
+  | SPollLim, Go =>                                                              (* 616 false: stopConditions returns false *)
       match limitsVar s with
       | None => Some (s |> set_panicked true)
-      | Some _ => goto_s SPoll2Ptr th s
+      | Some _ => goto_s SNodeTT th s
       end
-  | SPollLim, Nodes =>                                                           (* 602 true *)
+  | SPollLim, Nodes =>                                                           (* 616 true: the search ends by its node limit *)
       match limitsVar s with
       | None => Some (s |> set_panicked true)
-      | Some l => if lNodes l then goto_s SNodesPtr th s else None
-      end
-  | SNodesPtr, Go => goto_s (SNodesStore (stopPtr s)) th s                       (* 603 *)
-  | SNodesStore p, Go => goto_s SPoll2Ptr th (s |> set_toks (tok_set p RNodes (toks s)))   (* 603 *)
-  | SPoll2Ptr, Go => goto_s (SPoll2Tok (stopPtr s)) th s                         (* 605 *)
-  | SPoll2Tok p, Go =>                                                           (* 605 *)
-      match tok_get p (toks s) with
-      | Some r => Some (upd_s (th |> set_sreason (Some r) |> set_spc SWaitLim) s)
-      | None => goto_s SNodeTT th s
+      | Some l => if lNodes l then Some (upd_s (th |> set_sreason (Some RNodes) |> set_spc SWaitLim) s) else None
       end
   | SNodeTT, Go => goto_s SNodeHist th s                                         (* alphabeta.go:233 *)
   | SNodeHist, Go => goto_s SLoop th s                                           (* alphabeta.go:688 *)
@@ -752,8 +740,6 @@ Definition saccess (s : state) (th : sthread) (c : choice) : option access :=
   | SBook, Go => rd VBook | STTAge, Go => rd VTT | SHist, Go => rd VHistory
   | SPollPtr, Go => rd VStopPtr | SPollTok p, Go => ard (VTok p)
   | SPollLim, Go => rd VLimits | SPollLim, Nodes => rd VLimits
-  | SNodesPtr, Go => rd VStopPtr | SNodesStore p, Go => awr (VTok p)
-  | SPoll2Ptr, Go => rd VStopPtr | SPoll2Tok p, Go => ard (VTok p)
   | SNodeTT, Go => rd VTT | SNodeHist, Go => rd VHistory
   | SInfo1, Go => wr VOut | SInfo2, Go => rd VOut | SInfo3 _, Go => wr VOut
   | SExtra1, Go => rd VTimeLimit | SExtra2 _, Go => rd VExtraTime | SExtra3 _, Go => awr VExtraTime
@@ -857,7 +843,7 @@ Definition spc_code (p : spc) : list nat :=
   | SHasRes0 => [0] | STL0 => [1] | SET0 => [2] | SInBook => [3] | SInBookW => [4] | SInTT => [5] | SInTTW => [6]
   | SSetTL => [7] | SSetET => [8] | SLimTimer => [9] | STimerPtr => [10] | STimerGo p => [11; p] | SBook => [12]
   | STTAge => [13] | SHist => [14] | SRelInit => [15] | SLoop => [16] | SPollPtr => [17] | SPollTok p => [18; p]
-  | SPollLim => [19] | SNodesPtr => [20] | SNodesStore p => [21; p] | SPoll2Ptr => [22] | SPoll2Tok p => [23; p]
+  | SPollLim => [19]
   | SNodeTT => [24] | SNodeHist => [25] | SInfo1 => [26] | SInfo2 => [27] | SInfo3 k => [28; k]
   | SExtra1 => [29] | SExtra2 t => [30; t] | SExtra3 v => [31; v] | SWaitLim => [32] | SWaitPtr => [33]
   | SWaitTok p => [34; p] | SLastRes => [35] | SHasRes1 => [36] | SEndPtr => [37] | SEndStore p => [38; p]
@@ -943,7 +929,7 @@ Definition c_local (p : cpc) : bool :=
 Definition s_local (p : spc) : bool :=
   match p with
   | SHasRes0 | SInBook | SInBookW | SInTT | SInTTW | SLimTimer | STimerPtr | SBook | STTAge | SHist | SPollPtr
-  | SNodesPtr | SPoll2Ptr | SNodeTT | SNodeHist | SInfo1 | SInfo2 | SInfo3 _ | SExtra1 | SExtra2 _ | SWaitLim
+  | SNodeTT | SNodeHist | SInfo1 | SInfo2 | SInfo3 _ | SExtra1 | SExtra2 _ | SWaitLim
   | SWaitPtr | SLastRes | SHasRes1 | SEndPtr | SRes2 | SRes3 _ => true
   | _ => false
   end.
